@@ -23,6 +23,23 @@ CLAIMED = {
              "using struct for IEEE-754). roxmltree and the XML parser are exercised, not modelled, here (see C17).",
         technique="Coq proof (codec round trips, memory splice lemmas) + model/implementation correspondence",
         design="6/C01"),
+    "C02": dict(
+        text="Coq theorems (props/C02.v) over the Gallina model of BitMask::{mask,min,max,apply_mask,masked_value} (64-bit "
+             "two's-complement patterns written explicitly) and of MaskedIntReg value/set_value through the recording "
+             "device: for every field 0<=lsb<=msb<=63, signedness and register content, min/max are exactly the field's "
+             "range, reading returns the field's bits sign-interpreted (C02_read_any), an in-range write changes no bit "
+             "outside [lsb,msb] (bit-level, Z.testbit), reads back as the value written, an out-of-range write is "
+             "refused with no device write; any finite interleaving of writes to pairwise disjoint sibling fields "
+             "leaves every field reading as its last written value (induction over the write list); node level: one "
+             "device write of exactly the register, bytes outside unchanged, read-back through the device. Two "
+             "_refuted theorems record the defects of the pinned code (unsigned fields reaching bit 63 sign-extended; "
+             "63-bit fields overflow) repaired by fix: commits d5eb3ad and 6e75ee7. Tied to /repo by running real "
+             "MaskedIntReg / StructReg-entry nodes built from XML and the extracted model on the same histories.",
+        note="Trusted: Coq kernel, model/BitField.v + model/RegCodec.v validated by correspondence, extraction + driver, "
+             "rust/h_genapi, tools/c02.py (independent Python field_get/field_put predicate), reghist.py, xmlrender.py. "
+             "BE bit numbering is normalised by norm_field (modelled, compared by correspondence).",
+        technique="Coq proof (bit-level lemmas via Z.testbit, induction over write histories) + model/implementation correspondence",
+        design="6/C02"),
     "C10": dict(
         text="Coq theorems (props/C10.v) over the Gallina model of ReadMem/WriteMem::chunks and their iterators: for every "
              "address, length and budget the chunk list is finite, non-empty chunks, contiguous, sums/concatenates to the "
